@@ -138,6 +138,9 @@ def main(argv=None):
                                     % (name, counters.get(name, 0), minimum))
         if evaluations == 0:
             inconclusive.append('no case executed')
+        extra = getattr(mod, 'inconclusive_reasons', None)
+        if extra is not None and not inconclusive:
+            inconclusive.extend(extra(counters, monitor, tier))
 
     # ---- classify ------------------------------------------------------------------
     known, fixed = load_known(prop)
